@@ -42,13 +42,16 @@ CRYSTALS = {
     # TWO mobile chemistries (both sublattices of B2 carry occupation variables; species 0 jumps): clusters mix
     # the sublattices, so barriers depend on the occupation of the sublattice that does not jump
     "b2m": ((0.9, 1.01), 1.01, ()),
+    # as b2m, but the cluster expansion EXCLUDES chemistry 1 (makeclusters(..., exclude=[1])): its sites are mobile
+    # and take part in no interaction at all (empty rows in the site-interaction table)
+    "b2x": ((0.9, 1.01), 1.01, ()),
     # the jumping species is chemistry index 1; chemistry 0 is the spectator
     "b2c1": ((0.9, 1.01), 1.01, (0,)),
     # one mobile chemistry on two INEQUIVALENT sites joined by the jump network (octahedral + 2 tetrahedral
     # interstitial sites of fcc): jumps whose end points have different on-site energies
     "octtet": ((0.45, 0.55), 0.55, ()),     # two jump types: oct-tet and tet-tet
 }
-NSITES = {"hcp": 2, "octtet": 3, "b2m": 2}
+NSITES = {"hcp": 2, "octtet": 3, "b2m": 2, "b2x": 2}
 if os.environ.get("MCSIM_CRYSTALS"):      # A/B experiments only
     CRYSTALS = {k: v for k, v in CRYSTALS.items() if k in os.environ["MCSIM_CRYSTALS"].split(",")}
 CHEM = 0
@@ -70,7 +73,7 @@ def get_crystal(name):
             c = crystal.Crystal(np.eye(3), [np.zeros(3)], ["A"])
         elif name == "hcp":
             c = crystal.Crystal.HCP(1., chemistry="A")
-        elif name in ("b2", "b2m", "b2c1"):
+        elif name in ("b2", "b2m", "b2c1", "b2x"):
             c = crystal.Crystal(np.eye(3), [[np.zeros(3)], [0.5 * np.ones(3)]], ["A", "B"])
         elif name == "octtet":
             fcc = crystal.Crystal.FCC(1., "A")
@@ -87,7 +90,8 @@ def get_expansions(name, cutoff, order):
     key = (name, cutoff, order)
     if key not in _CE:
         crys = get_crystal(name)
-        ce = cluster.makeclusters(crys, cutoff, order)
+        ce = cluster.makeclusters(crys, cutoff, order, exclude=[1]) if name == "b2x" else \
+            cluster.makeclusters(crys, cutoff, order)
         chem = chem_of(name)
         jn = crys.jumpnetwork(chem, CRYSTALS[name][1])
         vce = cluster.makeVacancyClusters(crys, chem, ce)
@@ -164,6 +168,10 @@ class World(object):
         self.tsvalues = draw_values(rnd, len(self.ts), w["values"])
         if w["kra"] == "list":
             self.kra = draw_values(rnd, len(jn), w["values"])
+        elif w["kra"] == "blocked":
+            # one jump type switched off the usual way: its KRA value is +inf (listed first), the others ordinary
+            self.kra = draw_values(rnd, len(jn), w["values"]).astype(float)
+            self.kra[0] = np.inf
         elif w["kra"] == "zero":
             self.kra = 0                    # the documented default
         else:
@@ -184,7 +192,7 @@ class World(object):
         self.jumping = jumping
         self.vacsite = jumping[w["vacsite"] % len(jumping)] if self.vac else None
         self.scale = float(np.sum(np.abs(self.evalues[np.isfinite(self.evalues)])) * max(1, self.nsites) +
-                           np.sum(np.abs(self.tsvalues)) + np.sum(np.abs(self.kra)) + 1.0)
+                           np.sum(np.abs(self.tsvalues)) + np.sum(np.abs(np.asarray(self.kra, dtype=float)[np.isfinite(np.asarray(self.kra, dtype=float))])) + 1.0)
         self.unit = {"tiny": 2.0 ** -40, "huge": 2.0 ** 40}.get(w["values"], 1.0)
         self.exact = w["values"] in ("dyadic", "coarse", "integer", "wide", "tiny", "huge", "hardcore")
 
@@ -251,6 +259,8 @@ class World(object):
             # NaN arises legitimately only as (+inf) - (+inf) in a trial that switches one infinite interaction
             # off and another on; two computations of the same quantity must then both give NaN
             return a != a and b != b
+        if a == b:
+            return True               # also +inf against +inf (a blocked jump type, a hard-core energy)
         if self.exact:
             return a == b
         return abs(a - b) <= 1e-9 * self.scale
@@ -359,6 +369,8 @@ class Run(RunBase):
             arr = np.array(a, dtype=np.int32)
         elif kind == "int8":
             arr = np.array(a, dtype=np.int8)
+        elif kind == "uint8" and all(x >= 0 for x in a):
+            arr = np.array(a, dtype=np.uint8)          # legal without a vacancy: the values are only 0 and 1
         elif kind == "strided":
             big = np.full(2 * len(a), 7, dtype=int)
             big[::2] = a
@@ -448,6 +460,12 @@ class Run(RunBase):
 
     # ------------------------------------------------------------------ generator
     def propose(self, rng):
+        if getattr(self.mc.siteinteract, "ndim", 2) != 2 or self.mc.siteinteract.shape[1] == 0:
+            # a sampler without a single interaction (the only interacting site is the vacancy): like the atom-free
+            # cell there is nothing to sample -- the site table has no columns, start() sees no site and the compiled
+            # class cannot be typed. Outside any sensible domain: the run ends here, nothing is compared.
+            self.probes["no-interaction-at-all"] += 1
+            return None
         op = self.propose_inner(rng)
         if op is not None and op.get("op") in ("update", "trial") and self.prop != "C35":
             op["as"] = rng.choice(("list", "list", "tuple", "array", "set"))
@@ -548,7 +566,7 @@ class Run(RunBase):
             spec = rng.choice(["zeros", "ones", "current", "current"])
         op = {"op": "start", "occ": spec, "alias": rng.random() < 0.5}
         if rng.random() < 0.3:
-            op["arr"] = rng.choice(("int32", "int8", "strided"))
+            op["arr"] = rng.choice(("int32", "int8", "strided", "uint8"))
         return op
 
     def propose_c35(self, rng, occd, unoc):
@@ -588,8 +606,12 @@ class Run(RunBase):
         else:
             T = rng.choice((0.1, 0.5, 1.0, 3.0))
             kt = [-T * np.log(1.0 - rng.random()) for _ in range(L)]
-        return {"op": "mcmoves", "o": [rng.randrange(self.n) for _ in range(L)],
-                "u": [rng.randrange(self.n) for _ in range(L)], "kTlogu": kt}
+        o, u = [rng.randrange(self.n) for _ in range(L)], [rng.randrange(self.n) for _ in range(L)]
+        if L >= 2 and rng.random() < 0.3:
+            # the same swap proposed twice in a row (with an independent random number each time)
+            o = [o[k - k % 2] for k in range(L)]
+            u = [u[k - k % 2] for k in range(L)]
+        return {"op": "mcmoves", "o": o, "u": u, "kTlogu": kt}
 
     # ------------------------------------------------------------------ executor
     def apply(self, index, op):
@@ -902,7 +924,11 @@ class Run(RunBase):
             if qrev is None:
                 self.fail("reverse-missing", "after {}->{} (dx={}) no transition {}->{} with -dx is reported".format(
                     i, j, list(dx), j, i))
-            if not self.W.close(q - qrev, E1 - E0):
+            if np.isinf(q) or np.isinf(qrev):
+                # a blocked jump type (KRA = +inf): forward and reverse barrier must both be +inf, nothing more to say
+                if not (q == np.inf and qrev == np.inf):
+                    self.fail("balance", "{}->{}: Q={!r} Qrev={!r}: a blocked jump must be blocked both ways".format(i, j, q, qrev))
+            elif not self.W.close(q - qrev, E1 - E0):
                 self.fail("balance", "{}->{}: Q={!r} Qrev={!r} but E1-E0={!r} (occ now {})".format(
                     i, j, q, qrev, E1 - E0, occ_to_str(self.mocc)))
             if not op["stay"]:
@@ -932,7 +958,10 @@ class Run(RunBase):
             if qrev is None:
                 self.fail("reverse-missing", "vacancy {}->{} (dx={}): no reverse transition with -dx in the final cell".format(
                     i, j, list(dx)))
-            if not self.W.close(E0 + q, E2 + qrev):
+            if np.isinf(q) or np.isinf(qrev):
+                if not (q == np.inf and qrev == np.inf):
+                    self.fail("balance", "vacancy {}->{}: Q={!r} Qrev={!r}: a blocked jump must be blocked both ways".format(i, j, q, qrev))
+            elif not self.W.close(E0 + q, E2 + qrev):
                 self.fail("balance", "vacancy {}->{}: E0+Q={!r} but E2+Qrev={!r}".format(i, j, E0 + q, E2 + qrev))
             self.probes["db-vacancy-checked"] += 1
             if op["stay"]:
@@ -948,6 +977,12 @@ class Run(RunBase):
     def op_jit_create(self, index, op):
         if self.prop != "C35":
             return "skip"
+        if getattr(self.mc.siteinteract, "ndim", 2) != 2 or self.mc.siteinteract.shape[1] == 0:
+            # a sampler without a single interaction (every mobile site interaction-free or vacant): there is
+            # nothing to sample and the site-interaction table has no columns; like the atom-free cell, outside any
+            # sensible domain (the compiled class cannot even be typed for it)
+            self.probes["no-interaction-at-all"] += 1
+            return "skip(no interactions)"
         param = cluster.MonteCarloSampler_param(self.mc)
         self.jit = cluster.MonteCarloSampler_jit(**param)
         self.jit_other = None
@@ -1231,7 +1266,8 @@ class Engine(object):
             if vac and nsites < 2:
                 continue   # a cell whose only site is the vacancy holds no atoms: no sampler to speak of
             w = {"crystal": c, "super": s, "cutoff": cutoff, "order": order, "vac": vac,
-                 "vacsite": rng.randrange(64), "jumps": jumps, "kra": rng.choice(("scalar", "list", "zero")),
+                 "vacsite": rng.randrange(64), "jumps": jumps,
+                 "kra": rng.choice(("scalar", "list", "zero") + (("blocked",) if self.prop != "C35" else ())),
                  "ts": jumps and ts_drawn, "values": rng.choice(("dyadic", "dyadic", "normal", "coarse", "integer", "wide", "tiny", "huge")),
                  "vseed": rng.randrange(1 << 30), "sseed": rng.randrange(1 << 30)}
             if not jumps and rng.random() < 0.12:
